@@ -300,6 +300,16 @@ func runC01() {
 			aggExpireScenario(rnd.Fork())
 		}
 		// re-lock calls over keys the transaction holds that fail and are retried (family of c06.go): the held locks stay
+		// fair locking retried with changed flags / for-update ts (family of c06.go; the locking-read oracle judges the values)
+		if i%(8*thin) == 1 {
+			c06AggRetry(rnd.Fork())
+			rec.Count("c01:family:agg-retry")
+		}
+		// one snapshot object that learnt "W is committed" from one lock and then meets W's other locks (family of c05.go)
+		if i%(10*thin) == 3 {
+			c05CommittedPrimary(rnd.Fork())
+			rec.Count("c01:family:committed-primary")
+		}
 		if i%(6*thin) == 2 {
 			relockScenario(rnd.Fork())
 			rec.Count("c01:family:relock")
